@@ -459,6 +459,48 @@ func c17docs(ev *evidence.Run, infos []*linter.CheckerInfo, viol func(key, what,
 			viol("docs|section-unregistered|"+name, "overview.md documents a checker that is not registered", name, nil)
 		}
 	}
+	// (b2) the marks also agree with what the real command-line mains select when no flag is given
+	for _, pkg := range []string{"./cmd/go-critic", "./cmd/gocritic"} {
+		bin, err := harness.BuildInstr(pkg)
+		if err != nil {
+			fmt.Fprintln(os.Stderr, err)
+			os.Exit(2)
+		}
+		rpc, err := harness.StartRPC(bin, harness.WorkDir(), []string{"VERIF_RPC=1"})
+		if err != nil {
+			fmt.Fprintln(os.Stderr, err)
+			os.Exit(2)
+		}
+		var resp struct {
+			Selected []string `json:"selected"`
+			Err      string   `json:"err"`
+			Panic    string   `json:"panic"`
+		}
+		if err := rpc.Call(map[string]interface{}{"op": "init", "args": []string{}}, &resp); err != nil || resp.Err != "" || resp.Panic != "" {
+			fmt.Fprintln(os.Stderr, "c17: default selection rpc:", err, resp.Err, resp.Panic)
+			os.Exit(2)
+		}
+		rpc.Close()
+		sel := map[string]bool{}
+		for _, n := range resp.Selected {
+			sel[n] = true
+		}
+		if len(sel) == 0 {
+			fmt.Fprintln(os.Stderr, "c17: the instrumented CLI selected nothing by default (broken check)")
+			os.Exit(2)
+		}
+		for _, in := range infos {
+			if strings.HasPrefix(in.Name, "vprobe") || strings.HasPrefix(in.Name, "vsched") {
+				continue
+			}
+			ev.Eval(1)
+			for _, mk := range rows[in.Name] {
+				if mk != sel[in.Name] {
+					viol("docs|default-mark-vs-cli|"+in.Name, "default-enabled mark in overview.md disagrees with what "+filepath.Base(pkg)+" really selects when no flag is given", fmt.Sprintf("mark=%v selected=%v tags=%v", mk, sel[in.Name], in.Tags), nil)
+				}
+			}
+		}
+	}
 	// (c) `go-critic doc` and `doc <name>` on both CLI binaries
 	for _, pkg := range []string{"./cmd/go-critic", "./cmd/gocritic"} {
 		bin, err := harness.BuildBin(pkg)
